@@ -23,6 +23,8 @@ type tlsClient struct {
 	Fault     string
 	DialAfter func() bool
 	KeepOpen  bool // do not close after the script (idle client)
+	// AfterHello (with Fault "abort"): instead of resetting after its ClientHello the client sends these bytes
+	AfterHello []byte
 	// Pipelined: all items are written in one go and the write side is ended at once (EndMode) without waiting for
 	// replies ("fire and forget": the close_notify alert travels right behind the last data record); the replies are
 	// then read until the server ends the stream.
@@ -39,6 +41,7 @@ type tlsClient struct {
 	IOErr        error
 	Finished     bool // goroutine ended
 	firstFlight  bool
+	ffBytes      int // bytes the client had sent when its first flight was delivered
 	aborted      bool
 	more         chan struct{}
 }
@@ -205,6 +208,9 @@ func (c *tlsClient) actions() []sim.Action {
 			_ = d
 			c.P.Deliver(0, k)
 			if c.P.Inflight(0) == 0 {
+				if !c.firstFlight {
+					c.ffBytes, _, _ = c.P.Stats(0)
+				}
 				c.firstFlight = true
 				if c.Fault == "stall" {
 					c.Cl.S.Count("tls_stalled_after_client_hello")
@@ -217,6 +223,13 @@ func (c *tlsClient) actions() []sim.Action {
 	} else if c.firstFlight && c.Fault == "abort" && !c.aborted {
 		acts = append(acts, sim.Action{Key: c.Name + " abort", Do: func() {
 			c.aborted = true
+			if w, _, _ := c.P.Stats(0); len(c.AfterHello) > 0 && w == c.ffBytes {
+				// the client has sent its ClientHello and nothing else yet: behind it come bytes that are no TLS record
+				c.P.Ends[0].Write(c.AfterHello)
+				c.P.Deliver(0, c.P.Inflight(0))
+				c.Cl.S.Count("tls_garbage_after_client_hello")
+				return
+			}
 			c.P.Ends[0].Reset(false)
 			c.Cl.S.Count("tls_abort_after_client_hello")
 		}})
